@@ -32,6 +32,9 @@ pub struct Cfg {
     batch: usize,
     n: usize,
     inner_fail: Vec<bool>,
+    /// the user's error function panics for this request index (only reached when the seed picks
+    /// that request for error injection); the callers catch the panic and carry on
+    bad: Option<usize>,
 }
 
 pub fn gen(rng: &mut Prng) -> Cfg {
@@ -53,6 +56,7 @@ pub fn gen(rng: &mut Prng) -> Cfg {
         batch: if rng.chance(0.4) { rng.range(2, 4) as usize } else { 1 },
         n,
         inner_fail: (0..n).map(|_| rng.chance(0.2)).collect(),
+        bad: if !no_error_fn && rng.chance(0.15) { Some(rng.below(n as u64 / 2) as usize) } else { None },
     }
 }
 
@@ -64,7 +68,38 @@ pub fn run(cfg: &Cfg, seed: u64) -> Arc<World> {
         let cfgc = cfg.clone();
         let w2 = w.clone();
         let fut = {
-            let efn = |r: &Req| PErr { serial: r.id, req_id: r.id, class: INJECTED };
+            let bad = cfg.bad.map(|b| b as u64 + 1);
+            let efn = move |r: &Req| {
+                if Some(r.id % 1_000_000) == bad {
+                    panic!("error_fn: scripted panic for request {}", r.id);
+                }
+                PErr { serial: r.id, req_id: r.id, class: INJECTED }
+            };
+            // awaits a call future; a panic of the user's error function counts as the injected error
+            // it stands for, any other panic is the library's
+            async fn settle<F: std::future::Future<Output = Result<crate::world::Resp, PErr>>>(w: &Arc<World>, id: u64, f: F) -> Outcome {
+                let mut f = Box::pin(f);
+                let r = std::future::poll_fn(|cx| match std::panic::catch_unwind(std::panic::AssertUnwindSafe(|| f.as_mut().poll(cx))) {
+                    Ok(p) => p.map(Some),
+                    Err(_) => std::task::Poll::Ready(None),
+                })
+                .await;
+                match r {
+                    Some(Ok(x)) => Outcome::ok(&x),
+                    Some(Err(e)) => Outcome::inner(&e),
+                    None => {
+                        let msg = crate::sim::take_last_panic().unwrap_or_default();
+                        if msg.contains("error_fn: scripted panic") {
+                            std::mem::forget(f);
+                            Outcome::inner(&PErr { serial: id, req_id: id, class: INJECTED })
+                        } else {
+                            std::mem::forget(f);
+                            w.log(Ev::ActorPanic { req: id, msg: msg.clone() });
+                            Outcome::layer(format!("panic: {msg}"))
+                        }
+                    }
+                }
+            }
             macro_rules! drive {
                 ($layer:expr) => {{
                     // two services built separately from equally-seeded configuration
@@ -79,8 +114,18 @@ pub fn run(cfg: &Cfg, seed: u64) -> Arc<World> {
                         // service A: strictly sequential
                         for i in 0..cfgc.n {
                             let req = mk(i, 0);
-                            w2.log(Ev::Arrive { req: req.id });
-                            do_call(&w2, &mut a, req, false, &map).await;
+                            let id = req.id;
+                            w2.log(Ev::Arrive { req: id });
+                            if cfgc.bad.is_none() {
+                                do_call(&w2, &mut a, req, false, &map).await;
+                            } else {
+                                let _ = std::future::poll_fn(|cx| tower::Service::poll_ready(&mut a, cx)).await;
+                                let f = tower::Service::call(&mut a, req);
+                                w2.log(Ev::Issued { req: id });
+                                w2.log(Ev::FirstPoll { req: id });
+                                let o = settle(&w2, id, f).await;
+                                w2.log(Ev::Resolve { req: id, out: o });
+                            }
                         }
                         // service B: in batches (futures obtained in order, then awaited in order)
                         let mut i = 0;
@@ -97,8 +142,8 @@ pub fn run(cfg: &Cfg, seed: u64) -> Arc<World> {
                             }
                             for (id, f) in futs {
                                 w2.log(Ev::FirstPoll { req: id });
-                                let r = f.await;
-                                w2.log(Ev::Resolve { req: id, out: match &r { Ok(x) => Outcome::ok(x), Err(e) => map(e) } });
+                                let o = settle(&w2, id, f).await;
+                                w2.log(Ev::Resolve { req: id, out: o });
                             }
                             i += k;
                         }
